@@ -185,3 +185,51 @@ def vla_values(bits):
     hi = (1 << (bits - 1)) - 1
     lo = -(1 << (bits - 1))
     return [lo, lo + 1, -1000, -9, -8, -7, -1, 0, 1, 8, 9, 100, hi, hi - 7, hi // 2, hi // 2 + 1, hi // 3 + 1, hi // 8]
+
+
+def nonlocal_programs():
+    """preemptive defeat functions returning into avoidable / unavoidable defeat: a defeat function is
+    preemptive iff a preempt block appears anywhere in it (even if unreachable).  v[0] -> k, v[1] decides the later defeat."""
+    K = Var('k', INT)
+    pre = lambda: Preempt([_mark('p')])       # noqa: E731
+    shapes = {
+        'none': [],
+        'top': [pre()],
+        'in_if_false': [If(Lit(BOOL, False), [pre()])],
+        'in_if_arg': [If(Bin('==', K, Lit(INT, 99)), [pre()])],
+        'in_else': [If(Bin('<', K, Lit(INT, 1000)), [_mark('i')], [pre()])],
+        'in_while': [While(Bin('>', K, Lit(INT, 50)), [pre(), OpAssign(K, '-', Lit(INT, 20))])],
+        'in_for': [For(Decl('i', INT, Lit(INT, 0, keep=True)), Bin('<', Var('i', INT), Bin('-', K, Lit(INT, 50))),
+                       OpAssign(Var('i', INT), '+', Lit(INT, 5, keep=True)), [pre()])],
+        'in_for_in_if_false': [If(Lit(BOOL, False), [For(Decl('i', INT, Lit(INT, 0, keep=True)), Bin('<', Var('i', INT), Lit(INT, 2, keep=True)),
+                                                         OpAssign(Var('i', INT), '+', Lit(INT, 1, keep=True)), [pre()])])],
+        'in_nested_for': [For(Decl('i', INT, Lit(INT, 0, keep=True)), Bin('<', Var('i', INT), Lit(INT, 1, keep=True)), OpAssign(Var('i', INT), '+', Lit(INT, 1, keep=True)),
+                              [For(Decl('j', INT, Lit(INT, 0, keep=True)), Bin('<', Var('j', INT), Bin('-', K, Lit(INT, 55))),
+                                   OpAssign(Var('j', INT), '+', Lit(INT, 9, keep=True)), [Block([pre()])])])],
+        'in_block': [Block([Block([pre()])])],
+        'after_return_guard': [If(Bin('>', K, Lit(INT, 500)), [Ret(None), pre()])],
+    }
+    for sn, body in shapes.items():
+        for caller in ('undo_unavoidable', 'undo_conditional', 'stop_unavoidable', 'stop_conditional', 'via_outer', 'twice'):
+            df = Func('!df', [('k', INT, False)], EMPTY, [_mark('d')] + body + [_mark('e')])
+            dead = ExprStmt(Call('!is_defeat', []))
+            cond = ExprStmt(Call('!truth_is_defeat', [Bin('==', arg(1), Lit(INT, 1))]))
+            call = ExprStmt(Call(df, [arg(0)]))
+            funcs = [df]
+            if caller == 'undo_unavoidable':
+                st = [Try([_mark('t'), call, dead], 'undo', [_mark('u')])]
+            elif caller == 'undo_conditional':
+                st = [Try([_mark('t'), call, cond, _mark('f')], 'undo', [_mark('u')])]
+            elif caller == 'stop_unavoidable':
+                st = [Try([_mark('t'), call, dead], 'stop', [_mark('s')])]
+            elif caller == 'stop_conditional':
+                st = [Try([_mark('t'), call, cond, _mark('f')], 'stop', [_mark('s')])]
+            elif caller == 'via_outer':
+                outer = Func('!outer', [('k', INT, False)], EMPTY, [_mark('o'), ExprStmt(Call(df, [Var('k', INT)])), _mark('q')])
+                funcs.append(outer)
+                st = [Try([_mark('t'), ExprStmt(Call(outer, [arg(0)])), cond, _mark('f')], 'undo', [_mark('u')])]
+            else:
+                st = [Try([_mark('t'), call, _mark('m'), call, cond, _mark('f')], 'stop', [_mark('s')]),
+                      Try([_mark('T'), call, cond], 'undo', [_mark('U')])]
+            main = Func('@is_you', [('v', Arr(INT, True), False)], EMPTY, [_mark('<')] + st + [_mark('>'), _mark('!')])
+            yield f'nonlocal/{sn}/{caller}', Program([], [main] + funcs)
